@@ -650,6 +650,31 @@ func (st *Stack) compactRange(first, last int, expiration *LogExpirationConfig) 
 
 	defer lockFile.Close()
 
+	// The list may have changed while the lock was released: tables
+	// added on top, other ranges compacted. Our tables are locked, so
+	// they must still be listed next to each other.
+	curNames, err := st.readNames()
+	start := -1
+	if err == nil {
+		for i := 0; i+last-first < len(curNames); i++ {
+			if curNames[i] == st.stack[first].name {
+				start = i
+				break
+			}
+		}
+		for i := first; start >= 0 && i <= last; i++ {
+			if curNames[start+i-first] != st.stack[i].name {
+				start = -1
+			}
+		}
+	}
+	if start < 0 {
+		if !emptyTable {
+			os.Remove(tmpTable)
+		}
+		return false, err
+	}
+
 	fn := formatName(
 		st.stack[first].MinUpdateIndex(),
 		st.stack[last].MaxUpdateIndex())
@@ -664,17 +689,11 @@ func (st *Stack) compactRange(first, last int, expiration *LogExpirationConfig) 
 	}
 
 	var names []string
-	for i := 0; i < first; i++ {
-		names = append(names, st.stack[i].name)
-	}
-
+	names = append(names, curNames[:start]...)
 	if !emptyTable {
 		names = append(names, fn)
 	}
-
-	for i := last + 1; i < len(st.stack); i++ {
-		names = append(names, st.stack[i].name)
-	}
+	names = append(names, curNames[start+last-first+1:]...)
 
 	if _, err := lockFile.Write([]byte(strings.Join(names, "\n"))); err != nil {
 		os.Remove(destTable)
